@@ -208,6 +208,25 @@ def auto_safe(f, kind, site):
                 return L is not None and local_lt_len(f, L, b)
             if ok_operand(x, ops[0]) and ok_operand(y, ops[1]):
                 return 'sum of two values bounded by collection lengths (each <= isize::MAX) cannot overflow usize'
+    if kind in ('index', 'index_mut') and hasattr(site, 'args') and len(site.args) == 2:
+        # `xs[(i + 1)..]` with i enumerating xs: i < xs.len(), hence i + 1 <= xs.len() — a valid (possibly empty) tail
+        rng = peel(f.expr_operand(site.args[1], b, 'T'))
+        if rng[0] == 'agg' and 'RangeFrom' in str(rng[1]) and rng[2]:
+            st = peel(rng[2][0])
+            if st[0] == 'field' and st[1][0] == 'bin':
+                st = st[1]
+            recv = root_sig(f.expr_operand(site.args[0], b, 'T'))
+            if st[0] == 'bin' and st[1].startswith('Add') and st[3] == ('int', 1):
+                i_ = peel(st[2])
+                if i_[0] == 'field' and i_[2] == '0':
+                    src = peel(i_[1])
+                    while src[0] == 'field' and src[2] == '0':
+                        src = peel(src[1])
+                    if src[0] == 'as' and src[2] == 'Some' and peel(src[1])[0] == 'call' and peel(src[1])[1].endswith('::next'):
+                        it = peel(src[1])[2][0]
+                        enum = [x for x in walk(it) if x[0] == 'call' and x[1].endswith('::enumerate')]
+                        if enum and root_sig(enum[0][2][0]) == recv:
+                            return 'tail slice starting one past an index that enumerates the same sequence (start <= len)'
     if kind in ('unwrap', 'expect') and hasattr(site, 'args') and site.args:
         recv = peel(f.expr_operand(site.args[0], b, 'T'))
         if recv[0] == 'call' and recv[1].split('::')[-1] in ('split_first', 'split_last', 'first', 'last', 'first_mut', 'last_mut') and recv[2]:
